@@ -27,6 +27,12 @@ Three families of cases, each a plain dict that a replay file can carry:
              returns the notification once one arrives; blocking with a long timeout and an arrival inside it -> that
              notification, at arrival; something queued -> the head of the queue at once for EVERY (block, timeout).
 
+  real_ops   deterministic like real_wire, but the application also ISSUES operations through `Manager` while received
+             notifications wait untaken in the queue (second / third create_subscription in every combination of filter,
+             stream_name, start_time, stop_time; get, get_config, lock, ... ; the profile's vendor operations; async or
+             sync mode), their replies scripted; oracle: an independent FIFO of what has been received and not yet taken -
+             every take returns its head, an operation changes nothing (see the section "real_ops" below).
+
 Nothing here looks at the source; timing bounds are wall-clock with wide margins (a hang is 2 s)."""
 import socket, threading, time, re
 
@@ -378,8 +384,314 @@ def tailshare_cases():
                         out.append(case)
     return out
 
+# ------------------------------------------------------------------ real_ops
+# Operations issued through Manager WHILE received notifications wait untaken in the queue.  The property: every
+# notification the server sends is returned exactly once, in arrival order - whatever else the application does on the
+# session in between.  A step list is run on the real Manager / Session / parser (reads as in real_wire):
+#   ['srv', [msg, ...], read]   the server sends messages (['notif', n, size, uni] / ['reply', k, size]: the reply to the
+#                               k-th operation issued), taken by the client in reads of at most `read` octets (0 = one)
+#   ['take', j]                 the consumer calls take_notification(block=False) j times
+#   ['op', name, args, kwargs]  the application issues Manager.<name>(*args, **kwargs) (async: returns at once; sync: in
+#                               its own thread, completes when its reply has been read)
+#   ['drain']                   take_notification(block=False) until None
+# Oracle: an independent FIFO - a notification enters when its last octet has been read, a take removes the head; every
+# take returns exactly the head of that FIFO (None when empty), an operation changes nothing; replies reach their own
+# operation; no exception out of parse / take / the operation; no errback; still connected; after the last step the
+# drain returns everything still queued, once, in order, then None.
+T1, T2 = '2026-09-30T00:00:00Z', '2026-10-01T00:00:00Z'
+EVF = '<ev xmlns="urn:example:ev"/>'
+SERVER_CAPS = ['urn:ietf:params:netconf:base:1.0', 'urn:ietf:params:netconf:base:1.1',
+               'urn:ietf:params:netconf:capability:notification:1.0', 'urn:ietf:params:netconf:capability:interleave:1.0',
+               'urn:ietf:params:netconf:capability:candidate:1.0', 'urn:ietf:params:netconf:capability:confirmed-commit:1.0',
+               'urn:ietf:params:netconf:capability:confirmed-commit:1.1',
+               'urn:ietf:params:netconf:capability:validate:1.0', 'urn:ietf:params:netconf:capability:validate:1.1',
+               'urn:ietf:params:netconf:capability:startup:1.0', 'urn:ietf:params:netconf:capability:xpath:1.0',
+               'urn:ietf:params:netconf:capability:writable-running:1.0', 'urn:ietf:params:netconf:capability:rollback-on-error:1.0',
+               'urn:ietf:params:netconf:capability:url:1.0?scheme=http,ftp,file',
+               'urn:ietf:params:netconf:capability:with-defaults:1.0?basic-mode=explicit&also-supported=report-all',
+               'urn:ietf:params:xml:ns:yang:ietf-netconf-monitoring?module=ietf-netconf-monitoring&revision=2010-10-04']
+
+def subscription_calls():
+    """create_subscription in every combination of its four parameters (filter forms x stream x start/stop), keyword form,
+    plus positional forms"""
+    out = []
+    filters = [None, ['subtree', EVF], ['xpath', '/ev'], [EVF], '<filter type="subtree">%s</filter>' % EVF]
+    for f in filters:
+        for s in (None, 'NETCONF', 'other'):
+            for st, sp in ((None, None), (T1, None), (T1, T2)):
+                kw = {}
+                if f is not None: kw['filter'] = f
+                if s is not None: kw['stream_name'] = s
+                if st is not None: kw['start_time'] = st
+                if sp is not None: kw['stop_time'] = sp
+                out.append(['create_subscription', [], kw])
+    out += [['create_subscription', [None, 'NETCONF', T1], {}], ['create_subscription', [None, None, T1, T2], {}],
+            ['create_subscription', [['subtree', EVF], 'other', T2], {}], ['create_subscription', [None, 'NETCONF'], {}]]
+    return out
+
+CFG = '<config xmlns="%s"><x xmlns="urn:example:x"><i>1</i></x></config>' % BASE
+STANDARD_CALLS = [
+    ['get', [], {}], ['get', [], {'filter': ['subtree', '<x xmlns="urn:example:x"/>']}], ['get', [], {'filter': ['xpath', '/x']}],
+    ['get_config', ['running'], {}], ['get_config', [], {'source': 'candidate', 'filter': ['subtree', '<x xmlns="urn:example:x"/>']}],
+    ['lock', ['running'], {}], ['lock', [], {'target': 'candidate'}], ['unlock', ['running'], {}],
+    ['edit_config', [], {'target': 'candidate', 'config': CFG}], ['edit_config', [], {'target': 'running', 'config': CFG, 'default_operation': 'merge'}],
+    ['copy_config', [], {'source': 'running', 'target': 'startup'}], ['delete_config', ['startup'], {}], ['validate', ['candidate'], {}],
+    ['commit', [], {}], ['commit', [], {'confirmed': True, 'timeout': '60'}], ['discard_changes', [], {}], ['cancel_commit', [], {}],
+    ['get_schema', ['ietf-netconf-monitoring'], {}], ['kill_session', ['99'], {}],
+    ['dispatch', ['get-frob'], {}], ['rpc', ['get-frob'], {}]]
+VENDOR_CALLS = {
+    'junos': [['rpc', ['<get-software-information/>'], {}], ['get_configuration', [], {}], ['get_configuration', [], {'format': 'text'}],
+              ['load_configuration', [], {'format': 'text', 'config': 'system { host-name a; }'}],
+              ['compare_configuration', [], {}], ['command', ['show version'], {}], ['reboot', [], {}], ['halt', [], {}], ['commit', [], {}],
+              ['rollback', [], {'rollback': 1}]],
+    'alu': [['get_configuration', [], {}], ['show_cli', ['show version'], {}], ['load_configuration', [], {'format': 'cli', 'config': 'exit all'}]],
+    'h3c': [['get_bulk', [], {}], ['get_bulk_config', ['running'], {}], ['cli', ['<Execution>display version</Execution>'], {}], ['save', ['a.cfg'], {}],
+            ['load', ['a.cfg'], {}], ['rollback', ['a.cfg'], {}]],
+    'hpcomware': [['cli_display', [['display version']], {}], ['cli_config', [['vlan 2']], {}], ['save', ['a.cfg'], {}], ['rollback', ['a.cfg'], {}]],
+    'huawei': [['cli', ['<cmd><id>1</id><cmdline>display version</cmdline></cmd>'], {}], ['action', ['<save/>'], {}]],
+    'iosxe': [['save_config', [], {}]], 'nexus': [['exec_command', [['show version']], {}]],
+    'sros': [['md_cli_raw_command', ['show version'], {}], ['commit', [], {}]]}
+
+def op_calls(profile):
+    # a vendor operation replaces the standard one of the same name on that profile's Manager
+    v = VENDOR_CALLS.get(profile, [])
+    return subscription_calls() + [c for c in STANDARD_CALLS if c[0] not in [x[0] for x in v]] + v
+
+def _arg(x):
+    """JSON form -> call form: a 2-list whose head is a filter type is the (type, criteria) tuple of the API"""
+    if isinstance(x, list) and len(x) == 2 and x[0] in ('subtree', 'xpath'):
+        return (x[0], x[1])
+    return x
+
+def _show_call(c):
+    return '%s(%s)' % (c[0], ', '.join([repr(_arg(a)) for a in c[1]] + ['%s=%r' % (k, _arg(v)) for k, v in sorted(c[2].items())]))
+
+def run_ops(case):
+    """-> None or (what, sig)"""
+    import queue
+    from ncclient.capabilities import Capabilities
+    ses, m, errs = _session(case['profile'], case['base'], bool(case.get('sax')))
+    ses._server_capabilities = Capabilities(SERVER_CAPS)
+    sync = bool(case.get('sync'))
+    m.async_mode = not sync
+    fifo = []                    # the oracle's queue: (n, text) received completely and not yet taken
+    ops = []                     # per operation issued: dict(call, mid, rpc | box, thread)
+    tag = '[%s] ' % case['profile']
+    hist = []                    # what happened so far, for the message
+    def take_once(where):
+        try:
+            x = m.take_notification(block=False)
+        except Exception as e:
+            return ('%s%s: take_notification(block=False) raised %s' % (tag, where, type(e).__name__), 'ops_take_raised')
+        want = fifo.pop(0) if fifo else None
+        got = None if x is None else getattr(x, 'notification_xml', repr(x)).strip()
+        if got != (None if want is None else want[1]):
+            rest = [want[0]] + [n for n, t in fifo] if want else []
+            return ('%s%s: take_notification(block=False) returned %s; received and not yet taken: %s; history: %s'
+                    % (tag, where, _short(got) if got else None, ['n%d' % n for n in rest] or 'nothing', ' / '.join(hist)),
+                    'ops_notif_lost' if want is not None else 'ops_notif_unexpected')
+        return None
+    def finished(o):
+        """-> (done?, reply or None, error or None)"""
+        if 'rpc' in o:
+            r = o['rpc']
+            return r.event.is_set(), r.reply, r.error
+        if o['box']:
+            r = o['box'][0]
+            return True, (None if isinstance(r, Exception) else r), (r if isinstance(r, Exception) else None)
+        return False, None, None
+    try:
+        for si, step in enumerate(list(case['steps']) + [['drain']]):
+            where = 'step %d %s' % (si + 1, step[0])
+            if step[0] == 'take':
+                for _ in range(int(step[1])):
+                    f = take_once(where)
+                    if f: return f
+                hist.append('take x%d' % step[1])
+            elif step[0] == 'drain':
+                for _ in range(len(fifo) + 1):
+                    f = take_once(where + (' (end of the history)' if si == len(case['steps']) else ''))
+                    if f: return f
+                f = take_once(where)
+                if f: return f
+                hist.append('drain')
+            elif step[0] == 'op':
+                call = [step[1], step[2], step[3]]
+                fn = getattr(m, call[0])
+                args, kw = [_arg(a) for a in call[1]], {k: _arg(v) for k, v in call[2].items()}
+                o = dict(call=call)
+                if sync:
+                    o['box'] = []
+                    def body(fn=fn, args=args, kw=kw, box=o['box']):
+                        try: box.append(fn(*args, **kw))
+                        except Exception as e: box.append(e)
+                    o['thread'] = threading.Thread(target=body, daemon=True, name='c11-op'); o['thread'].start()
+                else:
+                    try:
+                        o['rpc'] = fn(*args, **kw)
+                    except Exception as e:
+                        return ('%s%s: %s raised %s: %s' % (tag, where, _show_call(call), type(e).__name__, str(e)[:100]), 'ops_call_raised')
+                # the request as the server would see it
+                try:
+                    req = ses._q.get(timeout=HANG)
+                except queue.Empty:
+                    if sync and o['box']:
+                        return ('%s%s: %s ended with %r before sending a request' % (tag, where, _show_call(call), o['box'][0]), 'ops_call_raised')
+                    return ('%s%s: %s queued no request for the server' % (tag, where, _show_call(call)), 'ops_no_request')
+                k = re.search(r'message-id="([^"]+)"', req if isinstance(req, str) else req.decode('utf-8', 'replace'))
+                if not k:
+                    return ('%s%s: the request of %s carries no message-id' % (tag, where, _show_call(call)), 'ops_no_request')
+                o['mid'] = k.group(1)
+                ops.append(o)
+                hist.append(_show_call(call))
+            elif step[0] == 'srv':
+                texts, frames = [], []
+                for msg in step[1]:
+                    if msg[0] == 'reply':
+                        if msg[1] >= len(ops):
+                            return (tag + where + ': the case replies to an operation that has not been issued', 'real_harness_error')
+                        t = ok_reply_text(ops[msg[1]]['mid'], msg[2], ops[msg[1]]['call'][0])
+                    else:
+                        t = notif_text(msg[1], msg[2], bool(msg[3]) if len(msg) > 3 else False)
+                    texts.append(t)
+                    frames.append(frame(((DECL if case.get('decl') else '') + t).encode(), case['base'], case.get('chunk', 0)))
+                stream = b''.join(frames)
+                rd = int(step[2]) if len(step) > 2 and step[2] else len(stream)
+                for a in range(0, len(stream), rd):
+                    try:
+                        ses.parser.parse(stream[a:a + rd])
+                    except Exception as e:
+                        return ('%s%s (octets %d..%d of the burst): parser raised %s: %s' % (tag, where, a, a + rd, type(e).__name__, str(e)[:120]), 'ops_parse_raised')
+                for msg, t in zip(step[1], texts):
+                    if msg[0] == 'notif':
+                        fifo.append((msg[1], (DECL if case.get('decl') else '') + t)); hist.append('n%d arrives' % msg[1])
+                    else:
+                        o = ops[msg[1]]
+                        if 'thread' in o: o['thread'].join(HANG)
+                        done, reply, err = finished(o)
+                        hist.append('reply to %s' % o['call'][0])
+                        if not done:
+                            return ('%s%s: %s is still pending although its reply has been read' % (tag, where, _show_call(o['call'])), 'ops_reply_missing')
+                        if err is not None:
+                            return ('%s%s: %s failed with %s: %s' % (tag, where, _show_call(o['call']), type(err).__name__, str(err)[:100]), 'ops_request_failed')
+                        raw = getattr(reply, 'xml', None)
+                        if raw is None and reply is not None and 'thread' in o:
+                            # a synchronous call may hand out the profile's own view of the reply (Junos: an NCElement with the
+                            # name spaces removed) instead of the RPCReply: it must still be the reply to this request
+                            ts = getattr(reply, 'tostring', None)
+                            ts = ts.decode('utf-8', 'replace') if isinstance(ts, bytes) else str(ts if ts is not None else reply)
+                            if o['mid'] not in ts:
+                                return ('%s%s: %s returned %s, not the reply to its request' % (tag, where, _show_call(o['call']), ts[:80]), 'ops_foreign_reply')
+                        elif raw is None or o['mid'] not in raw or xml_shape(raw) != xml_shape(t):
+                            return ('%s%s: %s completed with %s instead of its own reply' % (tag, where, _show_call(o['call']), _short(raw)), 'ops_foreign_reply')
+                        o['answered'] = True
+            for o in ops:
+                if not o.get('answered') and finished(o)[0]:
+                    d, r, e = finished(o)
+                    return ('%s%s: %s completed (%s) although no reply to it has been sent' % (tag, where, _show_call(o['call']), type(e).__name__ if e else 'reply'), 'ops_request_failed')
+            if errs:
+                return ('%s%s: an error was broadcast to the listeners: %r' % (tag, where, errs[0]), 'ops_errback')
+            if not m.connected:
+                return ('%s%s: the session no longer reports connected' % (tag, where), 'ops_disconnected')
+        return None
+    finally:
+        # operations still waiting for a reply (sync mode): end them
+        pend = [o for o in ops if 'thread' in o and o['thread'].is_alive()]
+        if pend:
+            try: ses._dispatch_error(Exception('end of case'))
+            except Exception: pass
+
+def ok_reply_text(mid, size=0, op=''):
+    if op == 'get_schema':
+        return ('<rpc-reply xmlns="%s" message-id="%s"><data xmlns="urn:ietf:params:xml:ns:yang:ietf-netconf-monitoring">module m { }</data></rpc-reply>'
+                % (BASE, mid))
+    if size:
+        return reply_text(mid, size)
+    return '<rpc-reply xmlns="%s" message-id="%s"><ok/></rpc-reply>' % (BASE, mid)
+
+def ops_case(profile, base, calls, pattern, pi=0, sync=False):
+    """one deterministic history around the given operations.  Notifications n1..n3 are queued and one is taken before the
+    first operation; `pattern` places the replies and the further notifications"""
+    case = dict(check='real_ops', profile=profile, base=base, style='ops-' + pattern)
+    if sync: case['sync'] = True
+    if base == 11: case['chunk'] = (0, 7, 1000)[pi % 3]
+    st = [['srv', [['notif', 1, 0, 0], ['notif', 2, (0, 300, 5000)[pi % 3], pi % 2], ['notif', 3, 0, 0]], (0, READ, 100)[pi % 3]], ['take', 1]]
+    n = 3
+    for k, c in enumerate(calls):
+        st.append(['op'] + c)
+        n += 1
+        if pattern == 'reply-first':
+            st += [['srv', [['reply', k, 0]], 0], ['srv', [['notif', n, 0, 0]], 0]]
+        elif pattern == 'notif-first':
+            st += [['srv', [['notif', n, 0, 1], ['reply', k, 300]], (0, 50)[pi % 2]]]
+        elif pattern == 'take-between':
+            st += [['take', 1], ['srv', [['reply', k, 0], ['notif', n, 300, 0]], 0]]
+        else:                                   # 'late': replies at the end (async only)
+            st += [['srv', [['notif', n, 0, 0]], 0]]
+        if k + 1 < len(calls) and pattern != 'take-between':
+            st.append(['take', 1] if k % 2 == 0 else ['take', 0])
+    if pattern == 'late':
+        st.append(['srv', [['reply', k, 0] for k in reversed(range(len(calls)))], 0])
+    case['steps'] = st
+    return case
+
+def ops_cases():
+    """Deterministic family: for every profile, every call of the table (create_subscription in all parameter combinations,
+    the standard operations, the profile's vendor operations) is issued while notifications wait in the queue - two or
+    three calls per history, the second/third create_subscription among them; reply placement, framing and sync / async
+    mode rotate."""
+    out, pi = [], 0
+    subs = subscription_calls()
+    pats = ('reply-first', 'notif-first', 'take-between', 'late')
+    for p_i, p in enumerate(PROFILES):
+        calls = op_calls(p)
+        others = calls[len(subs):]
+        j = 0
+        while j < len(calls):
+            pat = pats[pi % 4]
+            sync = pat != 'late' and (pi // 4 + p_i) % 5 == 0
+            # first a plain subscription or another operation, then the call of the table, then (every other case) one more
+            lead = subs[0] if pi % 2 == 0 else others[pi % len(others)]
+            grp = [lead, calls[j]] + ([calls[j + 1]] if j + 1 < len(calls) and pi % 2 else [])
+            j += len(grp) - 1
+            out.append(ops_case(p, 10 if pi % 3 else 11, grp, pat, pi, sync))
+            pi += 1
+    return out
+
+def gen_ops(rng):
+    p = rng.choice(PROFILES)
+    case = dict(check='real_ops', profile=p, base=rng.choice([10, 10, 11]), style='ops-random')
+    if case['base'] == 11: case['chunk'] = rng.choice([0, 0, 1, 7, 100, 1000])
+    if rng.random() < 0.2: case['sync'] = True
+    if rng.random() < 0.2: case['decl'] = True
+    if p == 'junos' and rng.random() < 0.5: case['sax'] = True
+    calls, st, n, nops, unanswered = op_calls(p), [], 0, 0, []
+    subs = subscription_calls()
+    for _ in range(rng.randint(4, 12)):
+        r = rng.random()
+        if r < 0.4:
+            msgs = []
+            for _ in range(rng.choice([1, 1, 2, 3])):
+                if unanswered and rng.random() < 0.4:
+                    k = unanswered.pop(rng.randrange(len(unanswered)) if not case.get('sync') else 0)
+                    msgs.append(['reply', k, rng.choice([0, 0, 300, 5000])])
+                else:
+                    n += 1; msgs.append(['notif', n, rng.choice([0, 0, 0, 400, 5000]), 1 if rng.random() < 0.3 else 0])
+            st.append(['srv', msgs, rng.choice([0, 0, READ, 1000, 17])])
+        elif r < 0.6:
+            st.append(['take', rng.choice([1, 1, 2, 3])])
+        elif r < 0.65:
+            st.append(['drain'])
+        elif not (case.get('sync') and len(unanswered) >= 3):
+            st.append(['op'] + (rng.choice(subs) if rng.random() < 0.5 else rng.choice(calls)))
+            unanswered.append(nops); nops += 1
+    if unanswered and rng.random() < 0.7:
+        st.append(['srv', [['reply', k, 0] for k in unanswered], 0])
+    case['steps'] = st
+    return case
+
 # ------------------------------------------------------------------ live sessions
-HANG = 2.0            # s: a call that has not returned by then is reported as blocked
+HANG = 2.0           # s: a call that has not returned by then is reported as blocked
 AT_ONCE = 0.5         # s: upper bound for "immediately"
 SLACK = 1.0           # s: how much later than its timeout a call may return
 EARLY = 0.01          # s: tolerance of the lower bound
@@ -815,7 +1127,7 @@ def _ftree(filter_xml):
     return c(etree.fromstring(filter_xml))
 
 # ------------------------------------------------------------------ entry points
-RUNNERS = {'real_wire': run_wire, 'real_live': run_live, 'real_take': run_take}
+RUNNERS = {'real_wire': run_wire, 'real_live': run_live, 'real_take': run_take, 'real_ops': run_ops}
 
 def run_case(case):
     try:
@@ -846,7 +1158,8 @@ def parallel(cases, width):
 def all_cases(rng, tier):
     q = tier == 'quick'
     wire = (tailshare_cases() + headshare_cases() + [gen_wire(rng) for _ in range(1000 if q else 12000)]
-            + [gen_wire_sax(rng) for _ in range(200 if q else 3000)])
+            + [gen_wire_sax(rng) for _ in range(200 if q else 3000)]
+            + ops_cases() + [gen_ops(rng) for _ in range(200 if q else 5000)])
     live = live_cases(rng, n_extra=10 if q else 150) + sax_cases()
     take = [dict(check='real_take', profile=p, base11=bool(i % 2), transport=TRANSPORTS[i % 3]) for i, p in enumerate(PROFILES)]
     take.append(dict(check='real_take', profile='junos', base11=False, transport='ssh+sax'))
@@ -892,9 +1205,14 @@ def check(ctx):
         ctx.hist('real_family', case['check']); ctx.hist('real_profile', case['profile'])
         if case['check'] == 'real_connect':
             pass
+        elif case['check'] == 'real_ops':
+            ctx.hist('real_base', case['base']); ctx.hist('real_ops_style', case.get('style')); ctx.hist('real_ops_mode', 'sync' if case.get('sync') else 'async')
+            for st in case['steps']:
+                if st[0] == 'op':
+                    ctx.hist('real_ops_call', st[1] if st[1] != 'create_subscription' else 'create_subscription(%s)' % ', '.join(sorted(st[3]) or ['positional' if st[2] else '']))
         elif case['check'] != 'real_wire': ctx.hist('real_transport', case.get('transport', 'unix'))
         if case['check'] == 'real_live': ctx.hist('real_live_hello_with', int(case.get('hello_with', 0)))
-        if case['check'] not in ('real_take', 'real_connect'):
+        if case['check'] not in ('real_take', 'real_connect', 'real_ops'):
             ctx.hist('real_base', case['base'])
             ctx.hist('real_history', '%d replies, %d notifications' % (sum(1 for x in case['msgs'] if x[0] == 'reply'), sum(1 for x in case['msgs'] if x[0] == 'notif')))
         if case['check'] == 'real_wire':
@@ -963,6 +1281,7 @@ def replay(doc):
             if f: break
     print('case      :', {k: (v if k != 'reads' or len(v) < 40 else v[:40] + ['...']) for k, v in case.items()})
     print('expected  : property C11 holds (%s)' % {'real_wire': 'every notification completely received is returned by take_notification once, in order, intact; replies reach their requests; the session stays up',
+                                                 'real_ops': 'operations issued through Manager while received notifications wait in the queue change nothing: every take_notification(block=False) returns the oldest notification received and not yet taken (None when there is none), replies reach their operations, the session stays up',
                                                  'real_live': 'a blocking consumer gets every notification sent, in order; replies reach their requests; the session stays up',
                                                  'real_take': 'Manager.take_notification(block, timeout) follows queue.Queue.get: None at once when non-blocking, None after the timeout when blocking, the notification otherwise',
                                                  'real_connect': 'every notification the server sent behind its <hello> is returned by take_notification once, in order, intact, under the given schedule of connecting thread / session thread / server; the capability exchange succeeds; the session stays up'}[case['check']])
